@@ -10,7 +10,37 @@ use super::cluster::entry_view;
 use super::oracle::check_pairs;
 
 pub async fn apply_any(c: &mut Cluster, ev: &Event) -> Res<()> {
-    c.apply(ev).await
+    c.apply(ev).await?;
+    if let Event::AssertRecovered(steps) = ev {
+        assert_recovered(c, *steps);
+    }
+    Ok(())
+}
+
+fn assert_recovered(c: &mut Cluster, max_steps: u32) {
+    use super::cluster::ClientOutcome;
+    use super::cluster::Op;
+    if c.stuck.is_some() {
+        return;
+    }
+    let probe = c.clients.iter().rposition(|x| matches!(&x.write, Some(Op::Put(k, v)) if k == "recovery" && v == "probe"));
+    let why = match probe {
+        None => Some("no leader accepted a write".to_string()),
+        Some(w) if !matches!(c.clients[w].outcome, ClientOutcome::WriteOk(_)) => {
+            Some(format!("the write issued after the faults stopped was not acknowledged ({:?})", c.clients[w].outcome))
+        }
+        Some(_) => recovered(c),
+    };
+    if let Some(why) = why {
+        let views: Vec<String> = c.last_views.values().map(|v| format!("n{}:{:?} t{} c{} a{} last{}", v.id, v.role, v.term, v.commit, v.applied, v.last)).collect();
+        let text = format!("after the faults stopped (all nodes up, every message delivered in order, {} fair steps incl. timer expiries) the cluster did not recover: {why}; {}", max_steps, views.join(" | "));
+        c.oracle.violate("C32", "recover".into(), text.clone());
+        // with snapshots enabled the same outcome means: a peer behind the purge boundary was not
+        // brought up to date by log or by snapshot
+        if c.opts.snapshot_enable {
+            c.oracle.violate("C33", "recover".into(), text);
+        }
+    }
 }
 
 /// Views of all live nodes plus pseudo-views of the durable images of dead nodes.
@@ -559,6 +589,7 @@ pub async fn closure(c: &mut Cluster, mode: super::menu::Closure) -> Res<Vec<Eve
             }
             let mut wrote = false;
             let mut write_id: Option<usize> = None;
+            let mut timeouts = 0usize;
             for _ in 0..max_steps {
                 if c.stuck.is_some() {
                     break;
@@ -573,6 +604,8 @@ pub async fn closure(c: &mut Cluster, mode: super::menu::Closure) -> Res<Vec<Eve
                     Event::Vote(el.peers[el.answered.len()], VoteAns::Deliver)
                 } else if let Some(ev) = next_fair_delivery(c) {
                     ev
+                } else if let Some((from, to)) = c.pushes().into_iter().next() {
+                    Event::PushDeliver(from, to)
                 } else if let Some(id) = c.up_ids().into_iter().find(|i| c.node(*i).map(|n| n.sm.waiting.load(std::sync::atomic::Ordering::SeqCst) > 0).unwrap_or(false)) {
                     Event::ApplyRelease(id)
                 } else {
@@ -583,7 +616,32 @@ pub async fn closure(c: &mut Cluster, mode: super::menu::Closure) -> Res<Vec<Eve
                             write_id = Some(c.clients.len());
                             Event::ClientWrite(l, super::cluster::Op::Put("recovery".into(), "probe".into()))
                         }
-                        _ => Event::Tick,
+                        // timed runs: the next timer fires; untimed runs: the leader's heartbeat
+                        // timer, or - without a leader - the election timer of the lowest node
+                        _ if c.opts.timed => Event::Tick,
+                        (Some(l), _) => Event::Heartbeat(l),
+                        (None, _) => {
+                            // election timers are randomised in reality: every node gets its
+                            // turn to time out first (round robin over the closure's timeouts)
+                            let cands: Vec<u32> = c
+                                .last_views
+                                .values()
+                                .filter(|v| matches!(c.slots.get(&v.id), Some(Slot::Up(_))) && matches!(v.role, RoleKind::Follower | RoleKind::Candidate) && !v.fatal)
+                                .map(|v| v.id)
+                                .collect();
+                            if cands.is_empty() {
+                                break;
+                            }
+                            // a candidate's second expiry starts its election: stay with it
+                            // the canonical recovery schedule lets the node with the most
+                            // up-to-date log time out first (ties: lowest id); a candidate's
+                            // second expiry starts its election, so stay with it
+                            let _ = timeouts;
+                            let best = |id: &u32| c.last_views.get(id).map(|v| (v.last_log_id.map(|l| (l.1, l.0)).unwrap_or((0, 0)), std::cmp::Reverse(*id))).unwrap();
+                            let chosen = *cands.iter().max_by_key(|id| best(id)).unwrap();
+                            timeouts += 1;
+                            Event::Timeout(chosen)
+                        }
                     }
                 };
                 c.apply(&ev).await?;
@@ -591,21 +649,9 @@ pub async fn closure(c: &mut Cluster, mode: super::menu::Closure) -> Res<Vec<Eve
                 done.push(ev);
             }
             if c.stuck.is_none() {
-                let why = match write_id {
-                    None => Some("no leader accepted a write".to_string()),
-                    Some(w) if !matches!(c.clients[w].outcome, ClientOutcome::WriteOk(_)) => {
-                        Some(format!("the write issued after the faults stopped was not acknowledged ({:?})", c.clients[w].outcome))
-                    }
-                    Some(_) => recovered(c),
-                };
-                if let Some(why) = why {
-                    let views: Vec<String> = c.last_views.values().map(|v| format!("n{}:{:?} t{} c{} a{} last{}", v.id, v.role, v.term, v.commit, v.applied, v.last)).collect();
-                    c.oracle.violate(
-                        "C32",
-                        "recover".into(),
-                        format!("after the faults stopped (all nodes up, every message delivered in order, {} fair steps incl. timer expiries) the cluster did not recover: {why}; {}", max_steps, views.join(" | ")),
-                    );
-                }
+                let ev = Event::AssertRecovered(max_steps as u32);
+                apply_any(c, &ev).await?;
+                done.push(ev);
             }
         }
     }
